@@ -154,6 +154,29 @@ def _collapse_one_ac(t):
     return t, False
 
 
+def _perturb_call_function(t, draw):
+    calls = []
+
+    def find(n, path):
+        if n[0] == "call":
+            calls.append(path)
+        for i, ch in enumerate(T.children(n)):
+            find(ch, path + (i,))
+    find(t, ())
+    if not calls:
+        return t
+    path = draw(st.sampled_from(calls))
+
+    def edit(n, p):
+        if not p:
+            other = [f for f in TARGET_FUNCS if f != n[1]]
+            return ["call", draw(st.sampled_from(other)), n[2], n[3] if len(n) > 3 else {}]
+        ch = list(T.children(n))
+        ch[p[0]] = edit(ch[p[0]], p[1:])
+        return T.rebuild(n, ch)
+    return edit(t, path)
+
+
 def _perturb_call_keywords(t, draw):
     calls = []
 
@@ -209,6 +232,10 @@ def constructed(draw):
         target = T.substitute(tpl, theta)
     if identity_used:
         target = simplify_identities(target)
+    if draw(st.integers(0, 9)) == 0:
+        # one call of the target names another function than its counterpart: when the template's symbol is free and
+        # occurs several times, no single binding can serve all of them
+        target = _perturb_call_function(target, draw)
     if draw(st.integers(0, 9)) == 0:
         # a call of the target gets a keyword argument its counterpart in the template does not have (or loses
         # one): the two can no longer be equal under any substitution
